@@ -147,6 +147,8 @@ class PerDocumentWriter(object):
                 text = vmatcher.id()
                 weight = vmatcher.weight()
                 valuestring = vmatcher.value()
+                if valuestring is None:
+                    valuestring = emptybytes
                 yield (text, weight, valuestring)
                 vmatcher.next()
         self.add_vector_items(fieldname, fieldobj, readitems())
